@@ -965,11 +965,9 @@ impl CombineFn<Val, i64, Val> for SumModC {
         Val::Int(acc)
     }
 }
-impl LiftableCombiner<Val, i64, Val> for SumModC {
-    fn build_from_group(&self, values: &[Val]) -> i64 {
-        values.iter().fold(0i64, |a, v| (a + vint(v)).rem_euclid(self.0))
-    }
-}
+// this user combiner relies on the PROVIDED `build_from_group` of the trait (create + add_input
+// over the group), like most user-written liftable combiners do
+impl LiftableCombiner<Val, i64, Val> for SumModC {}
 
 pub fn zgcd(a: i64, b: i64) -> i64 {
     let (mut a, mut b) = (a.unsigned_abs(), b.unsigned_abs());
@@ -3308,8 +3306,8 @@ pub fn big_combine_cases(full: bool) -> Vec<(Src, Vec<Step>, Mode)> {
 /// combine_globally_lifted; Sum / Count / Min / TopK; the minimum sits in the middle of the group
 pub fn big_group_cases(full: bool) -> Vec<(Src, Vec<Step>, Mode)> {
     let mut out = vec![];
-    let cids = [Cid::Sum, Cid::Count, Cid::Min, Cid::TopK(3)];
-    for (gi, g) in [127usize, 128, 129, 300, 1000, 4097, 8200].into_iter().enumerate() {
+    let cids = [Cid::Sum, Cid::Count, Cid::Min, Cid::TopK(3), Cid::SumMod(1009), Cid::Gcd];
+    for (gi, g) in [127usize, 128, 129, 300, 511, 513, 1000, 4097, 8200].into_iter().enumerate() {
         if !full && g == 8200 {
             continue;
         }
